@@ -3,154 +3,145 @@
    (client of the T1 kernel model coq/T1K.v), instrumented with ghost logs
    (BarrierProofs.ist: ent / arr / rets = "entered round k" / fetch_add executed
    with value v / returned r; erasure: lstep_erase, reachable_ireach).
-   [init count rounds]: fiber t performs [nth t rounds 0] consecutive
-   fiber_barrier_wait calls on one barrier initialised with [count].
+   [init two count rounds]: fiber t performs [nth t rounds 0] consecutive
+   fiber_barrier_wait calls on one barrier initialised with [count];
+   two = true is the code in /repo (20d3952: one waiter list per round parity),
+   two = false the original one-list protocol (kept as a regression only).
 
    round_safe count x          : returned x t k -> count fibers entered their k-th wait
    round_safe_arrived count x  : returned x t k -> count DISTINCT fibers executed the
-                                 fetch_add of their k-th wait (what correct code gives) *)
+                                 fetch_add of their k-th wait *)
 From Coq Require Import List ZArith Lia.
 From LF Require Import Conc T1K Barrier BarrierProofs BarrierInv.
 Import ListNotations.
 Local Open Scope Z_scope.
 
-(* FINDING F-C12.  Full statement (barrier_round_safety), which the pinned code VIOLATES:
-     forall count rounds x, 1 <= count -> length rounds = Z.to_nat count ->
-       ireach count rounds x -> round_safe count x.
-   Refutation: count = 3, three fibers performing two consecutive rounds each, and a
-   49-step schedule after which fiber 0 has returned from its 2nd wait although only
-   fibers 0 and 2 have entered their 2nd wait (and only fiber 0 has arrived in it):
-   the serial fiber 2 of round 1, still one entry short because fiber 1 has incremented
-   the counter but not yet enqueued, pops the round-2 entry of fiber 0, which it had
-   already released.  The same case replays on the real code: corpus/C12.txt. *)
-Theorem barrier_round_safety_refuted :
+(* ---- the repaired protocol: exactly count fibers, any count >= 1, any numbers of
+   consecutive rounds per fiber, any schedule ---- *)
+
+(* nobody returns from its k-th wait before count fibers entered (even: count distinct
+   fibers executed the fetch_add of) their k-th wait *)
+Theorem barrier_round_safety : forall count rounds x,
+  1 <= count -> length rounds = Z.to_nat count -> ireach true count rounds x ->
+  round_safe_arrived count x /\ round_safe count x.
+Proof.
+  intros count rounds x Hc Hl R.
+  exact (round_safe_of_G count Hc x (ireach_l1 _ _ _ _ R) (ireach_G count Hc rounds x Hl R)).
+Qed.
+Print Assumptions barrier_round_safety.
+
+(* (a) In EVERY configuration of either protocol (any count, any number of fibers, any
+   rounds, any schedule): arrival numbers are 0,1,2,.. in execution order, one arrival
+   per (fiber, call), and a call returns 1 exactly when its arrival number is
+   = count-1 modulo count.  (b) For the repaired protocol with exactly count fibers:
+   at most one fiber returns 1 in every round. *)
+Theorem barrier_one_serial_per_round : forall count,
+  (forall tw rounds x, ireach tw count rounds x ->
+     word (mem (base x)) 0%nat = Z.of_nat (length (arr x)) /\
+     (forall i t k v, nth_error (arr x) i = Some (t, k, v) -> v = Z.of_nat i) /\
+     NoDup (map fst (arr x)) /\ NoDup (map fst (rets x)) /\
+     (forall t k r, In (t, k, r) (rets x) ->
+        exists v, In (t, k, v) (arr x) /\
+                  ((r = 1 /\ (v + 1) mod count = 0) \/ (r = 0 /\ (v + 1) mod count <> 0)))) /\
+  (forall rounds x t t' k, 1 <= count -> length rounds = Z.to_nat count -> ireach true count rounds x ->
+     In (t, k, 1) (rets x) -> In (t', k, 1) (rets x) -> t = t').
+Proof.
+  intros count. split.
+  - intros tw rounds x R. exact (one_serial_of_l1 count x (ireach_l1 tw count rounds x R)).
+  - intros rounds x t t' k Hc Hl R.
+    exact (one_serial_round count Hc x t t' k (ireach_l1 _ _ _ _ R) (ireach_G count Hc rounds x Hl R)).
+Qed.
+Print Assumptions barrier_one_serial_per_round.
+
+(* at most one fiber is inside a pop loop at any time — hence a single consumer per list *)
+Theorem barrier_single_consumer : forall count rounds x t u q q',
+  1 <= count -> length rounds = Z.to_nat count -> ireach true count rounds x ->
+  in_pop_loop (base x) t q -> in_pop_loop (base x) u q' -> t = u.
+Proof.
+  intros count rounds x t u q q' Hc Hl R.
+  exact (single_consumer_of_G count x t u q q' (ireach_l1 _ _ _ _ R) (ireach_G count Hc rounds x Hl R)).
+Qed.
+Print Assumptions barrier_single_consumer.
+
+(* every fiber performs R rounds: at quiescence (no fiber can take a step) every fiber has
+   returned from every round and every round had a fiber that returned 1 *)
+Theorem barrier_all_return : forall count R rounds x,
+  1 <= count -> length rounds = Z.to_nat count -> Forall (fun r => r = R) rounds ->
+  ireach true count rounds x -> quiescent x ->
+  (forall t k, (t < length rounds)%nat -> (1 <= k <= R)%nat -> returned x t k) /\
+  (forall k, (1 <= k <= R)%nat -> exists t, In (t, k, 1) (rets x)).
+Proof. intros count R rounds x Hc. exact (all_return_quiescent count Hc R rounds x). Qed.
+Print Assumptions barrier_all_return.
+
+(* one round each (either protocol): nobody returns before count distinct fibers executed
+   their fetch_add; at most count fetch_adds; the fiber that returns 1 is the one that
+   fetched count-1 and it is unique *)
+Theorem barrier_single_round : forall tw count rounds x,
+  1 <= count -> length rounds = Z.to_nat count -> Forall (fun r => r = 1%nat) rounds ->
+  ireach tw count rounds x ->
+  round_safe_arrived count x /\
+  Z.of_nat (length (arr x)) <= count /\
+  (forall t k, In (t, k, 1) (rets x) -> k = 1%nat /\ In (t, 1%nat, count - 1) (arr x)) /\
+  (forall t t' k k', In (t, k, 1) (rets x) -> In (t', k', 1) (rets x) -> t = t' /\ k = k').
+Proof. exact single_round_facts. Qed.
+Print Assumptions barrier_single_round.
+
+(* in every configuration of either protocol: no call returns before count fetch_adds *)
+Theorem barrier_no_return_before_count : forall tw count rounds x t k r,
+  1 <= count -> ireach tw count rounds x -> In (t, k, r) (rets x) ->
+  count <= Z.of_nat (length (arr x)).
+Proof. intros tw count rounds x t k r. exact (no_return_before_count tw count rounds x t k r). Qed.
+Print Assumptions barrier_no_return_before_count.
+
+(* ---- regression: the ORIGINAL one-list protocol violates round safety (F-C12, fixed
+   in /repo by 20d3952).  count = 3, three fibers, two rounds each, 49 steps: the serial
+   fiber 2 of round 1, still one entry short because fiber 1 has incremented the counter
+   but not yet enqueued, pops the round-2 entry of fiber 0, which returns from round 2
+   although only fibers 0 and 2 have entered it.  corpus/C12.txt replays the same case on
+   the real code (it passes on the repaired code; the same schedule on the two-list model:
+   w_facts2). *)
+Theorem barrier_round_safety_one_list_refuted :
   exists (count : Z) (rounds : list nat) (x : ist),
     count = 3 /\ rounds = [2; 2; 2]%nat /\
-    ireach count rounds x /\ reachable M (init count rounds) (base x) /\
+    ireach false count rounds x /\ reachable M (init false count rounds) (base x) /\
     returned x 0 2 /\ entered_fibers x 2 = [0; 2]%nat /\ arrived_fibers x 2 = [0]%nat /\
     ~ round_safe count x.
 Proof.
   exists 3, [2; 2; 2]%nat, w_state.
   pose proof w_facts as [Hr [He [Ha _]]].
   split; [reflexivity|]. split; [reflexivity|]. split; [exact w_reach|].
-  split; [exact (ireach_base _ _ _ w_reach)|].
+  split; [exact (ireach_base _ _ _ _ w_reach)|].
   split; [exists 0; rewrite Hr; cbn; auto|].
   split; [exact He|]. split; [exact Ha|exact w_not_round_safe].
 Qed.
-Print Assumptions barrier_round_safety_refuted.
+Print Assumptions barrier_round_safety_one_list_refuted.
 
-(* Exactly count fibers, ONE round each, any count >= 1, any schedule:
-   (1) nobody has returned unless count distinct fibers executed their fetch_add
-       (hence also: unless count fibers entered);
-   (2) at most count fetch_adds are ever executed;
-   (3) a fiber that returned 1 (serial) is the one that fetched count-1, and
-   (4) at most one fiber returns 1;
-   (5) at quiescence (no fiber can take a step) every fiber has returned and
-       one of them returned 1. *)
-Theorem barrier_single_round : forall count rounds x,
-  1 <= count -> length rounds = Z.to_nat count -> Forall (fun r => r = 1%nat) rounds ->
-  ireach count rounds x ->
-  round_safe_arrived count x /\ round_safe count x /\
-  Z.of_nat (length (arr x)) <= count /\
-  (forall t k, In (t, k, 1) (rets x) -> k = 1%nat /\ In (t, 1%nat, count - 1) (arr x)) /\
-  (forall t t' k k', In (t, k, 1) (rets x) -> In (t', k', 1) (rets x) -> t = t' /\ k = k') /\
-  (quiescent x ->
-     (forall t, (t < length rounds)%nat -> returned x t 1) /\ (exists t, In (t, 1%nat, 1) (rets x))).
+(* ---- outside the property's setting (F-C12b, documented, not fixed): with MORE
+   participants than count two serial fibers pop the same list at once, also in the
+   repaired protocol: count = 2, six fibers, one round each ---- *)
+Theorem barrier_more_participants_refuted :
+  exists (count : Z) (rounds : list nat) (s : st) (t u q : nat),
+    count = 2 /\ length rounds = 6%nat /\ reachable M (init true count rounds) s /\ t <> u /\
+    in_pop_loop s t q /\ in_pop_loop s u q.
 Proof.
-  intros count rounds x Hc Hl F R.
-  destruct (single_round_facts count rounds x Hc Hl F R) as (A & B & C & D).
-  pose proof (ireach_G count Hc rounds x Hl (or_intror F) R) as Gx.
-  destruct (round_safe_of_G count Hc x (ireach_l1 _ _ _ R) Gx) as [_ RS].
-  split; [exact A|]. split; [exact RS|]. split; [exact B|]. split; [exact C|]. split; [exact D|].
-  exact (single_round_quiescent count Hc rounds x Hl F R).
-Qed.
-Print Assumptions barrier_single_round.
-
-(* count = 1 or 2, exactly count fibers, ANY numbers of consecutive rounds, any
-   schedule: round safety (both forms), one serial fiber per round, and at most
-   one fiber inside the pop loop of the waiter list at any time. *)
-Theorem barrier_reuse_count_le_2 : forall count rounds x,
-  1 <= count <= 2 -> length rounds = Z.to_nat count ->
-  ireach count rounds x ->
-  round_safe_arrived count x /\ round_safe count x /\
-  (forall t t' k, In (t, k, 1) (rets x) -> In (t', k, 1) (rets x) -> t = t') /\
-  (forall t u, in_pop_loop (base x) t -> in_pop_loop (base x) u -> t = u).
-Proof.
-  intros count rounds x [Hc Hc2] Hl R.
-  pose proof (ireach_l1 _ _ _ R) as L.
-  pose proof (ireach_G count Hc rounds x Hl (or_introl Hc2) R) as Gx.
-  destruct (round_safe_of_G count Hc x L Gx) as [RA RS].
-  split; [exact RA|]. split; [exact RS|]. split.
-  - intros t t' k. exact (one_serial_round count Hc x t t' k L Gx).
-  - intros t u. exact (single_consumer_of_G count x t u L Gx).
-Qed.
-Print Assumptions barrier_reuse_count_le_2.
-
-(* In EVERY configuration (any count, any number of fibers, any numbers of rounds,
-   any schedule — including the ones in which round safety fails): the k-th
-   executed fetch_add fetches k-1 (arrival numbers are 0,1,2,... in execution
-   order, one arrival per (fiber, call)), and a call returns 1 (serial fiber)
-   exactly when its arrival number is = count-1 modulo count, 0 otherwise — hence
-   exactly one serial fiber in every group of count consecutive arrivals. *)
-Theorem barrier_one_serial_per_round : forall count rounds x,
-  ireach count rounds x ->
-  word (mem (base x)) 0%nat = Z.of_nat (length (arr x)) /\
-  (forall i t k v, nth_error (arr x) i = Some (t, k, v) -> v = Z.of_nat i) /\
-  NoDup (map fst (arr x)) /\ NoDup (map fst (rets x)) /\
-  (forall t k r, In (t, k, r) (rets x) ->
-     exists v, In (t, k, v) (arr x) /\
-               ((r = 1 /\ (v + 1) mod count = 0) \/ (r = 0 /\ (v + 1) mod count <> 0))).
-Proof. intros count rounds x R. exact (one_serial_of_l1 count x (ireach_l1 count rounds x R)). Qed.
-Print Assumptions barrier_one_serial_per_round.
-
-(* In every configuration: no call returns before count fetch_adds were executed. *)
-Theorem barrier_no_return_before_count : forall count rounds x t k r,
-  1 <= count -> ireach count rounds x -> In (t, k, r) (rets x) ->
-  count <= Z.of_nat (length (arr x)).
-Proof. intros count rounds x t k r. exact (no_return_before_count count rounds x t k r). Qed.
-Print Assumptions barrier_no_return_before_count.
-
-(* Two serial fibers inside the pop loop of the waiter list at once (the MPSC
-   single-consumer discipline is broken): count = 3, SIX fibers, one round each.
-   This needs more participants than count.  With exactly count participants and
-   one round, or count <= 2, it cannot happen (barrier_single_consumer below). *)
-Theorem barrier_single_consumer_refuted :
-  exists (count : Z) (rounds : list nat) (s : st) (t u : nat),
-    count = 3 /\ reachable M (init count rounds) s /\ t <> u /\
-    in_pop_loop s t /\ in_pop_loop s u.
-Proof.
-  exists 3, [1; 1; 1; 1; 1; 1]%nat, (base c_state), 2%nat, 5%nat.
+  exists 2, [1; 1; 1; 1; 1; 1]%nat, (base c_state), 1%nat, 5%nat, 0%nat.
   pose proof c_facts as [H2 H5].
-  split; [reflexivity|]. split; [exact (ireach_base _ _ _ c_reach)|].
+  split; [reflexivity|]. split; [reflexivity|]. split; [exact (ireach_base _ _ _ _ c_reach)|].
   split; [discriminate|]. split; [exact H2|exact H5].
 Qed.
-Print Assumptions barrier_single_consumer_refuted.
-
-Theorem barrier_single_consumer : forall count rounds x t u,
-  1 <= count -> length rounds = Z.to_nat count ->
-  (count <= 2 \/ Forall (fun r => r = 1%nat) rounds) ->
-  ireach count rounds x ->
-  in_pop_loop (base x) t -> in_pop_loop (base x) u -> t = u.
-Proof.
-  intros count rounds x t u Hc Hl Hr R.
-  exact (single_consumer_of_G count x t u (ireach_l1 _ _ _ R) (ireach_G count Hc rounds x Hl Hr R)).
-Qed.
-Print Assumptions barrier_single_consumer.
+Print Assumptions barrier_more_participants_refuted.
 
 (* ---- non-vacuity ---- *)
-(* count = 2, two fibers, two rounds each, run to completion: everybody returned
-   from both rounds, one serial fiber per round *)
-Definition ex2 : ist := irun (iinit 2 [2; 2]%nat) (repeat 0%nat 40 ++ repeat 1%nat 60 ++ repeat 0%nat 60 ++ repeat 1%nat 60 ++ repeat 0%nat 60).
-Example ex_count2_reuse :
-  ireach 2 [2; 2]%nat ex2 /\
-  rets ex2 = [(1%nat, 1%nat, 1); (0%nat, 1%nat, 0); (0%nat, 2%nat, 1); (1%nat, 2%nat, 0)] /\
-  map (status_of (base ex2)) [0; 1]%nat = [SDone; SDone].
-Proof. split; [unfold ex2; apply ireach_irun; apply ir_init|vm_compute; auto]. Qed.
-
-(* count = 3, one round: quiescent final state, all returned *)
-Definition ex3 : ist := irun (iinit 3 [1; 1; 1]%nat) (repeat 0%nat 20 ++ repeat 1%nat 20 ++ repeat 2%nat 40 ++ repeat 0%nat 10 ++ repeat 1%nat 10).
-Example ex_single_round_quiescent :
-  ireach 3 [1; 1; 1]%nat ex3 /\
+(* count = 3, three fibers, two rounds each, repaired protocol, run to completion *)
+Definition ex3 : ist :=
+  irun (iinit true 3 [2; 2; 2]%nat) (w_sched ++ repeat 1%nat 40 ++ repeat 2%nat 80 ++ repeat 0%nat 60
+                                      ++ repeat 1%nat 60 ++ repeat 2%nat 60 ++ repeat 0%nat 60 ++ repeat 1%nat 60).
+Example ex_count3_reuse :
+  ireach true 3 [2; 2; 2]%nat ex3 /\
   map (status_of (base ex3)) [0; 1; 2]%nat = [SDone; SDone; SDone] /\
-  rets ex3 = [(2%nat, 1%nat, 1); (0%nat, 1%nat, 0); (1%nat, 1%nat, 0)].
-Proof. split; [unfold ex3; apply ireach_irun; apply ir_init|vm_compute; auto]. Qed.
+  length (rets ex3) = 6%nat /\ (forall t, status_of (base ex3) t <> SReady).
+Proof.
+  split; [unfold ex3; apply ireach_irun; apply ir_init|]. split; [vm_compute; reflexivity|].
+  split; [vm_compute; reflexivity|]. intros t.
+  destruct t as [|[|[|t]]]; vm_compute; discriminate.
+Qed.
